@@ -230,7 +230,7 @@ def generate(seed, tier):
             # a call whose text does not parse (fault between "scope pushed" and "evaluation started")
             from .. import badsrc
             bk, text = badsrc.make_bad(rf, lang.render(g.program(), 0))
-            if bk in ('premature_end', 'unbalanced_open', 'unbalanced_close', 'illegal_char', 'unterminated_string', 'reserved_word'):
+            if bk in ('premature_end', 'unbalanced_open', 'unbalanced_close', 'illegal_char', 'unterminated_string', 'reserved_word', 'opener'):
                 ops.append({'op': 'bad', 'space': si, 'src': text, 'bad': bk})
                 continue
         if ro.random() < 0.25:
